@@ -72,8 +72,9 @@ def verify_function(repo, qual, con, types, contracts, specfuns=None, timeout_ms
     E.current = qual
     E.raised = []
     try:
-        fr.fingerprint = repo.fingerprint(qual)
-        mod, node, cls = repo.func(qual)
+        real = con.get("func_alias", qual)
+        fr.fingerprint = repo.fingerprint(real)
+        mod, node, cls = repo.func(real)
         f = Func(node, mod, (), qual.split(".")[-1], cls=cls, qual=qual)
         cases = con.get("cases") or [{}]
         for ci, case in enumerate(cases):
@@ -84,35 +85,48 @@ def verify_function(repo, qual, con, types, contracts, specfuns=None, timeout_ms
             env = {}
             for name, kind in params.items():
                 env[name] = make_param(E, P, name, kind)
+            starts = [(P, env)]
             if con.get("setup"):
-                env.update(con["setup"](E, P, env) or {})
-            frame = E.new_frame(P, env)
-            sctx = Ctx(mod, (frame,), True, qual)
-            if con.get("heap", False):
-                E.wf_axioms(P)
-            for (nm, src) in E.named(list(con.get("requires", [])) + list(case.get("requires", []))):
-                for (p, v) in E.ev(E.parse(src), P, sctx):
-                    P.assume(E.truth(v, P))
+                got = con["setup"](E, P, env)
+                if isinstance(got, list):
+                    starts = got
+                else:
+                    env.update(got or {})
             tag = ("case%d." % ci) if len(cases) > 1 else ""
+            outs = []
+            feasible_starts = 0
+            for (P, env) in starts:
+                frame = E.new_frame(P, env)
+                sctx = Ctx(mod, (frame,), True, qual)
+                if con.get("heap", False):
+                    E.wf_axioms(P)
+                for (nm, src) in E.named(list(con.get("requires", [])) + list(case.get("requires", []))):
+                    for (p, v) in E.ev(E.parse(src), P, sctx):
+                        P.assume(E.truth(v, P))
+                if not E.feasible(P):
+                    continue
+                feasible_starts += 1
+                P.old = P.clone()
+                P.written = set()
+                cctx = Ctx(mod, (frame,), False, qual)
+                E.func_stack.append(qual)
+                E.loop_counter = {}
+                if isinstance(node, ast.Lambda):
+                    o1 = [(p, ("ret", v)) for (p, v) in E.ev(node.body, P, cctx)]
+                else:
+                    o1 = E.exec_block(node.body, P, cctx, E.nonlocals_of(node))
+                E.func_stack.pop()
+                o1 = list(o1) + [(p, ("exc", nm)) for (p, nm) in E.raised]
+                E.raised = []
+                outs.extend((p, o, frame, sctx) for (p, o) in o1)
             # vacuity guard: the precondition must be satisfiable
-            if not E.feasible(P):
+            if feasible_starts == 0:
                 fr.obligations.append(dict(name="%s/%svacuity.pre_satisfiable" % (qual, tag), kind="vacuity",
                                            verdict="failed", time=0, solver="z3", model="precondition unsatisfiable"))
                 continue
-            P.old = P.clone()
-            P.written = set()
-            cctx = Ctx(mod, (frame,), False, qual)
-            E.func_stack.append(qual)
-            if isinstance(node, ast.Lambda):
-                outs = [(p, ("ret", v)) for (p, v) in E.ev(node.body, P, cctx)]
-            else:
-                outs = E.exec_block(node.body, P, cctx, E.nonlocals_of(node))
-            E.func_stack.pop()
-            outs = list(outs) + [(p, ("exc", nm)) for (p, nm) in E.raised]
-            E.raised = []
             fr.paths += len(outs)
             allowed = set(con.get("modifies", []))
-            for (p, o) in outs:
+            for (p, o, frame, sctx) in outs:
                 if o[0] == "exc":
                     if con.get("noraise", True):
                         E.oblige(p, "%snoraise.%s" % (tag, o[1]), z3.BoolVal(False), "safe", {"detail": "raise %s" % o[1]})
@@ -128,8 +142,7 @@ def verify_function(repo, qual, con, types, contracts, specfuns=None, timeout_ms
                 d["result"] = res
                 p.put(frame, d)
                 for (nm, src) in E.named(list(con.get("ensures", [])) + list(case.get("ensures", []))):
-                    for (q, v) in E.ev(E.parse(src), p, sctx):
-                        E.oblige(p, "%spost.%s" % (tag, nm), E.truth(v, p), "post")
+                    E.prove_spec(p, "%spost.%s" % (tag, nm), src, sctx, "post")
                 if con.get("post_hook"):
                     con["post_hook"](E, p, sctx, res, tag)
         if fr.returns == 0 and not con.get("may_not_return"):
